@@ -516,6 +516,8 @@ enum Op {
     ApiIndexAssign(bool),  // KotoVm::run_write_op(WriteOp::IndexAssign, x, index, 5)
     MatchLast,             // `match x` / `(others..., last) then last`
     Literal,               // the operand's literal written with its data entries *after* the metakeys
+    ApiCompound(usize),    // KotoVm::run_binary_op(BinaryOp::…Assign, a, b)
+    DebugNested,           // `'{[x]:?}'`
 }
 
 #[derive(Clone, Debug, PartialEq, Eq, Serialize, Deserialize)]
@@ -564,6 +566,8 @@ impl Case {
             Op::CallPacked => format!("callpacked {}", a),
             Op::ApiIndexAssign(n) => format!("apiindexassign {} {}", a, idx(*n)),
             Op::MatchLast => format!("matchlast {}", a),
+            Op::ApiCompound(i) => format!("apicompound {} {} {}", ARITH[*i].0, a, b),
+            Op::DebugNested => format!("debugnested {}", a),
             Op::Literal => match &self.a {
                 Opd::Map(ls) => format!("literal {}", ls[0].sexp()),
                 _ => "literal -".into(),
@@ -595,6 +599,8 @@ impl Case {
             Op::ApiIndexAssign(_) => "apiindexassign",
             Op::MatchLast => "matchlast",
             Op::Literal => "literal",
+            Op::ApiCompound(_) => "apicompound",
+            Op::DebugNested => "debugnested",
         }
     }
 }
@@ -831,6 +837,8 @@ fn render(c: &Case) -> String {
         Op::CallPacked => s.push_str(&format!("{}((7,)...)\n", a)),
         Op::ApiIndexAssign(_) => s.push_str(&format!("{}\n", a)), // the API call follows in Rust
         Op::MatchLast => s.push_str(&format!("match {}\n  (others..., last) then last\n", a)),
+        Op::ApiCompound(_) => s.push_str(&format!("({}, {})\n", a, b)), // the API call follows in Rust
+        Op::DebugNested => s.push_str(&format!("'{{[{}]:?}}'\n", a)),
         Op::Literal => {
             // rewrite the operand's literal: metakeys first, data entries after them
             if let Opd::Map(ls) = &c.a {
@@ -1607,12 +1615,22 @@ fn run_case(c: &Case, script: &str) -> Result<Outcome, String> {
                     let index: KValue = if *n { 0.into() } else { "s".into() };
                     vm.run_write_op(koto_runtime::WriteOp::IndexAssign, v, index, 5.into())
                 }
+                Op::ApiCompound(i) => {
+                    TRACE.with(|t| t.borrow_mut().clear());
+                    let (l, r) = match &v {
+                        KValue::Tuple(t) if t.len() == 2 => (t[0].clone(), t[1].clone()),
+                        _ => (KValue::Null, KValue::Null),
+                    };
+                    use koto_runtime::BinaryOp::*;
+                    let op = [AddAssign, SubtractAssign, MultiplyAssign, DivideAssign, RemainderAssign, PowerAssign][*i];
+                    vm.run_binary_op(op, l, r)
+                }
                 _ => Ok(v),
             }) {
                 Ok(v) => {
                     let d = match (&c.op, &v) {
                         (Op::Display | Op::Debug, KValue::Str(s)) => shown_av(s.as_str()),
-                        (Op::DisplayNested, KValue::Str(s)) => {
+                        (Op::DisplayNested | Op::DebugNested, KValue::Str(s)) => {
                             let t = s.as_str();
                             shown_av(t.strip_prefix('[').and_then(|x| x.strip_suffix(']')).unwrap_or(t))
                         }
@@ -1792,9 +1810,6 @@ fn d_check(c: &Case, o: &Outcome) -> Vec<(String, String)> {
         (Op::Cmp(i), Some(b)) => {
             let (_, _, key, hm) = CMP[*i];
             let bav = b.av();
-            if matches!(b, Opd::Prim(_, PrimK::Null)) && *i >= 4 {
-                return bad;
-            }
             let bool_of = |k: &str| match own_fn(a, k) {
                 Some((t, Beh::Ret(RV::Bool(v)))) => Some((t, v)),
                 _ => None,
@@ -2068,6 +2083,29 @@ impl Ctx {
         // F-C17-6: trailing position of unpacking / match on a map object: @index gets the raw -1
         if c.op == Op::MatchLast && matches!(c.a, Opd::Map(_)) && trace.iter().any(|e| e.contains(".Index ") && e.ends_with("args=[i-1]")) && open("F-C17-6") {
             return Some("F-C17-6".into());
+        }
+        // F-C17-8: KotoVm::run_binary_op(…Assign) with a Koto `@op=` function: registers are read after the
+        // callee's frame was pushed (panic / wrong result)
+        if let Op::ApiCompound(i) = &c.op {
+            if matches!(entry(ARITH[*i].4), Some(MV::Fn(_) | MV::Chain(..))) && open("F-C17-8") {
+                return Some("F-C17-8".into());
+            }
+        }
+        // F-C17-9: `==` / `!=` with null on the right: the `(_, Null)` arm precedes the overloads
+        if let (Op::Cmp(j), Some(Opd::Prim(_, PrimK::Null))) = (&c.op, &c.b) {
+            let overloaded = match (&c.a, *j) {
+                (Opd::Map(_), 4) => entry("Equal").is_some(),
+                (Opd::Map(_), 5) => entry("NotEqual").is_some() || entry("Equal").is_some(),
+                (Opd::Host(_) | Opd::Derived(_), 4 | 5) => true,
+                _ => false,
+            };
+            if overloaded && open("F-C17-9") {
+                return Some("F-C17-9".into());
+            }
+        }
+        // F-C17-10: `@debug` of an element is ignored when its container is rendered with `:?`
+        if c.op == Op::DebugNested && entry("Debug").is_some() && open("F-C17-10") {
+            return Some("F-C17-10".into());
         }
         // F-C17-7: entries written after `@access_assign` in the same literal go through that function
         if c.op == Op::Literal && entry("AccessAssign").is_some() && matches!(&c.a, Opd::Map(ls) if !ls[0].data.is_empty()) && open("F-C17-7") {
@@ -2683,6 +2721,61 @@ fn gen_wave2_grid(cx: &mut Ctx) {
     }
 }
 
+/// host API compound assignment, `==`/`!=` against null for every kind of left operand, nested debug
+fn gen_wave3_grid(cx: &mut Ctx) {
+    let null = Opd::Prim(10, PrimK::Null);
+    for i in 0..6 {
+        let (_, _, key, rkey, akey, hm, _) = ARITH[i];
+        let ahm = format!("{}_assign", hm);
+        for a in side_shapes(0, akey, key, &ahm, RI) {
+            for b in [Opd::Prim(10, PrimK::Num), plain(10, &[0]), obj(10, &[], &[(rkey, f(RJ))]), host(10, &[])] {
+                cx.push(Case { op: Op::ApiCompound(i), a: a.clone(), b: Some(b) });
+            }
+        }
+        cx.push(Case { op: Op::ApiCompound(i), a: obj(0, &[0], &[(akey, MV::Native(RV::Int(300)))]), b: Some(Opd::Prim(10, PrimK::Num)) });
+    }
+    // left operands of every kind against null
+    let mut lhs = vec![
+        Opd::Prim(0, PrimK::Num), Opd::Prim(0, PrimK::Str), Opd::Prim(0, PrimK::List), Opd::Prim(0, PrimK::Null), plain(0, &[0]),
+        obj(0, &[0], &[]), host(0, &[]), host(0, &[("equal", Beh::Ret(RV::Bool(true)))]),
+        host(0, &[("equal", Beh::Ret(RV::Bool(false))), ("not_equal", Beh::Ret(RV::Bool(false)))]),
+        host(0, &[("equal", Beh::Throw)]), host(0, &[("less", Beh::Ret(RV::Bool(true)))]),
+    ];
+    for b in [Beh::Ret(RV::Bool(true)), Beh::Ret(RV::Bool(false)), Beh::Ret(RV::Int(5)), Beh::Throw, Beh::Unimpl] {
+        lhs.push(obj(0, &[], &[("Equal", f(b))]));
+        lhs.push(obj(0, &[], &[("NotEqual", f(b))]));
+        lhs.push(obj(0, &[], &[("Equal", f(b)), ("NotEqual", f(Beh::Ret(RV::Bool(true))))]));
+    }
+    lhs.push(obj(0, &[], &[("Equal", MV::Native(RV::Bool(true)))]));
+    lhs.push(obj(0, &[], &[("Equal", MV::NonCallable)]));
+    lhs.push(obj(0, &[], &[("Less", f(Beh::Ret(RV::Bool(true))))]));
+    for a in &lhs {
+        for i in 0..6 {
+            cx.push(Case { op: Op::Cmp(i), a: a.clone(), b: Some(null.clone()) });
+            cx.push(Case { op: Op::Cmp(i), a: null.clone(), b: Some(match a { Opd::Prim(_, k) => Opd::Prim(0, *k), o => o.clone() }) });
+        }
+    }
+    // nested debug
+    for dbg in [None, Some(f(Beh::Ret(RV::Str))), Some(f(Beh::Ret(RV::Int(5)))), Some(f(Beh::Throw)), Some(MV::Native(RV::Str)), Some(MV::NonCallable)] {
+        for dsp in [None, Some(f(Beh::Ret(RV::Str))), Some(f(Beh::Throw))] {
+            let mut ops: Vec<(&str, MV)> = vec![];
+            if let Some(mv) = &dbg {
+                ops.push(("Debug", mv.clone()));
+            }
+            if let Some(mv) = &dsp {
+                ops.push(("Display", mv.clone()));
+            }
+            let a = obj(0, &[0], &ops);
+            for op in [Op::DebugNested, Op::Debug, Op::DisplayNested] {
+                cx.push(Case { op, a: a.clone(), b: None });
+            }
+        }
+    }
+    for a in [host(0, &[]), host(0, &[("display", Beh::Ret(RV::Str))]), plain(0, &[0]), Opd::Prim(0, PrimK::Num)] {
+        cx.push(Case { op: Op::DebugNested, a, b: None });
+    }
+}
+
 /// access chains: every placement of the key in data / `@meta` along chains of depth 0..=max_depth
 fn gen_access_grid(cx: &mut Ctx, max_depth: usize) {
     for depth in 0..=max_depth {
@@ -2956,7 +3049,7 @@ fn rand_opd(rng: &mut Rng, base_name: usize, focus: &[&str], host_focus: &[&str]
 
 fn gen_random(cx: &mut Ctx, rng: &mut Rng, n: usize) {
     for _ in 0..n {
-        let which = rng.weighted(&[30, 12, 22, 3, 1, 3, 3, 4, 3, 2, 3, 2, 2, 3, 2, 6, 3, 2, 3, 2, 2]);
+        let which = rng.weighted(&[30, 12, 22, 3, 1, 3, 3, 4, 3, 2, 3, 2, 2, 3, 2, 6, 3, 2, 3, 2, 2, 3, 2]);
         let i6 = rng.below(6);
         let key = rng.below(5);
         let (op, focus_a, focus_b, hf_a, hf_b): (Op, Vec<&str>, Vec<&str>, Vec<String>, Vec<String>) = match which {
@@ -2980,12 +3073,14 @@ fn gen_random(cx: &mut Ctx, rng: &mut Rng, n: usize) {
             17 => (Op::AccessAssign(key.min(2)), vec!["AccessAssign"], vec![], vec!["access_assign".into()], vec![]),
             18 => (Op::Reversed, vec!["Iterator", "Next", "NextBack"], vec![], vec![], vec![]),
             19 => (Op::CallPacked, vec!["Call"], vec![], vec!["call".into()], vec![]),
-            _ => (Op::ApiIndexAssign(rng.chance(2, 3)), vec!["IndexAssign"], vec![], vec!["index_assign".into()], vec![]),
+            20 => (Op::ApiIndexAssign(rng.chance(2, 3)), vec!["IndexAssign"], vec![], vec!["index_assign".into()], vec![]),
+            21 => (Op::ApiCompound(i6), vec![ARITH[i6].4], vec![ARITH[i6].3], vec![format!("{}_assign", ARITH[i6].5)], vec![]),
+            _ => (Op::DebugNested, vec!["Debug", "Display"], vec![], vec!["display".into()], vec![]),
         };
         let hfa: Vec<&str> = hf_a.iter().map(|s| s.as_str()).collect();
         let hfb: Vec<&str> = hf_b.iter().map(|s| s.as_str()).collect();
         let mut a = rand_opd(rng, 0, &focus_a, &hfa, None);
-        let binary = matches!(op, Op::Arith(_) | Op::Cmp(_)) || matches!(op, Op::Compound(_, false));
+        let binary = matches!(op, Op::Arith(_) | Op::Cmp(_) | Op::ApiCompound(_)) || matches!(op, Op::Compound(_, false));
         let b = if binary { Some(rand_opd(rng, 10, &focus_b, &hfb, Some(&a))) } else { None };
         if matches!(a, Opd::Prim(..)) && matches!(op, Op::Access(_) | Op::Method(_) | Op::AccessAssign(_)) {
             a = plain(0, &[0]);
@@ -3081,6 +3176,7 @@ fn main() {
     gen_unary_grid(&mut cx);
     gen_derived_grid(&mut cx);
     gen_wave2_grid(&mut cx);
+    gen_wave3_grid(&mut cx);
     gen_access_grid(&mut cx, if thorough { 4 } else { 3 });
     cx.flush();
     // 2. seeded random cases
